@@ -15,7 +15,7 @@
 //        act 1 = Stop concurrently at a random point
 //   fin  -> Stop (watchdog) ; remaining events
 // events:
-//   N:<msg>:<ch>:<seq>:<mode>:<fromuid>:<snode>:<ssess>     message about to be dispatched
+//   N:<msg>:<ch>:<seq>:<mode>:<fromuid>:<snode>:<ssess>:<uid.uid>   message about to be dispatched to these recipients
 //   E:<msg>:<res>:<g>/<uid>.<uid>;<g>/<uid>                 plan handed to EnqueueRecipientDeliveryPlan (res 1 accepted)
 //   Q:<msg>:<g>:<res>:<uid>.<uid>                           presence answer for one target batch (res 1 ok)
 //   W:<msg>:<uid>:<node>:<sess>:<disp>                      local session write (1 accepted 2 retryable 3 dropped)
@@ -491,7 +491,13 @@ func (r *c31Runner) runPhase(a []int64) {
 					u := uint64(1 + start%r.nusers)
 					recips[int(u)%ngroups] = append(recips[int(u)%ngroups], channelappendcontract.Recipient{UID: c31UID(u)})
 				}
-				r.log.add(fmt.Sprintf("N:%d:%d:%d:%d:%d:%d:%d", msg, ch, seq, mode, c31UIDNum(ev.FromUID), ev.SenderNodeID, ev.SenderSessionID))
+				var all []string
+				for g := range recips {
+					for _, rc := range recips[g] {
+						all = append(all, strconv.FormatUint(c31UIDNum(rc.UID), 10))
+					}
+				}
+				r.log.add(fmt.Sprintf("N:%d:%d:%d:%d:%d:%d:%d:%s", msg, ch, seq, mode, c31UIDNum(ev.FromUID), ev.SenderNodeID, ev.SenderSessionID, strings.Join(all, ".")))
 				_ = channelappend.VerifDispatchRecipientPlans(context.Background(), mode, ev, targets, recips, r.batch, c31Enq{r})
 				if pr.Chance(30) {
 					r.pause(pr)
